@@ -56,7 +56,9 @@ func run(pass *analysis.Pass) (any, error) {
 					report.Report(pass, call.Fun, fmt.Sprintf("could use %s instead", fn.replacement),
 						report.Fixes(edit.Fix(fmt.Sprintf("Use %s instead", fn.replacement),
 							edit.ReplaceWithString(call.Fun, fn.replacement),
-							edit.Delete(op))))
+							// Remove the argument together with the comma that
+							// precedes it; a trailing comma after it may stay.
+							edit.Delete(edit.Range{call.Args[len(call.Args)-2].End(), op.End()}))))
 				}
 			}
 		}
